@@ -409,6 +409,27 @@ class Fn:
                 if o[0] in ("c", "m"):
                     l, proj = o[1][0], list(o[1][1]) + proj
                     continue
+            if k == "agg" and proj:
+                # projecting a field out of a freshly built tuple / struct / enum variant: continue with that operand
+                p0 = proj[0]
+                p1 = proj[1] if len(proj) > 1 else None
+                kind = rv[1]
+                idx = None
+                rest = None
+                if kind[0] == "tuple" and isinstance(p0, list) and p0[0] == "f" and p0[1].isdigit():
+                    idx, rest = int(p0[1]), proj[1:]
+                elif kind[0] == "adt":
+                    fields = kind[3]
+                    q, r2 = (p1, proj[2:]) if (isinstance(p0, list) and p0[0] == "d") else (p0, proj[1:])
+                    if isinstance(q, list) and q[0] == "f" and q[1] in fields:
+                        idx, rest = fields.index(q[1]), r2
+                if idx is not None and idx < len(rv[2]):
+                    o = rv[2][idx]
+                    if o[0] == "k":
+                        return ("const", o[1])
+                    if o[0] in ("c", "m"):
+                        l, proj = o[1][0], list(o[1][1]) + list(rest)
+                        continue
             return ("rv", rv, proj)
         return ("local", l, proj)
 
